@@ -1,7 +1,7 @@
 SPECIFICATION Spec
 CONSTANTS
   Bug = "none"
-  Inst = "int32"
-  MaxItems = 3
+  Inst = "mixed"
+  MaxItems = 2
   RECORD = "off"
 INVARIANTS TypeOK RoundTrip SizeExact Idempotent NonFlatInvisible FrameOK
